@@ -175,7 +175,9 @@ pub fn model_diff(a: &A2lFile, b: &A2lFile) -> String {
     only_b.extend_from_slice(&lb[j..]);
     if only_a.is_empty() && only_b.is_empty() {
         // same lines, different order
-        for (x, y) in da.lines().zip(db.lines()) {
+        let fa = da.lines().map(str::trim).filter(|l| noise(l));
+        let fb = db.lines().map(str::trim).filter(|l| noise(l));
+        for (x, y) in fa.zip(fb) {
             if x != y && !x.contains("\": [") {
                 return format!(
                     "same Debug lines in a different order; first positional difference `{}` vs `{}`",
